@@ -252,6 +252,21 @@ impl<'tcx> Ctx<'tcx> {
                     let _ = write!(o, ",\"v\":{}", v);
                 }
             }
+            ty::Adt(adt, ga)
+                if adt.is_struct()
+                    && adt.non_enum_variant().fields.len() == 1
+                    && matches!(
+                        adt.non_enum_variant().fields.iter().next().unwrap().ty(tcx, ga).kind(),
+                        ty::Int(_) | ty::Uint(_)
+                    ) =>
+            {
+                // newtype over an integer (`Family(u32)`): export the wrapped value
+                let env = TypingEnv::post_analysis(tcx, body_did);
+                if let Some(si) = c.const_.try_eval_scalar_int(tcx, env) {
+                    let size = si.size();
+                    let _ = write!(o, ",\"v\":{}", si.to_uint(size) as i128);
+                }
+            }
             ty::Adt(adt, _) if adt.is_enum() && adt.variants().iter().all(|v| v.fields.is_empty()) => {
                 let env = TypingEnv::post_analysis(tcx, body_did);
                 if let Some(si) = c.const_.try_eval_scalar_int(tcx, env) {
